@@ -600,8 +600,14 @@ def serde_rules(F, rep, rule="C20.4", types=None):
                              "(no default): a value for which the field is omitted cannot be read back" % (adt, both), witness={"kind": "serde-skip", "fields": both})
             elif skipped:
                 rep.holds(rule, adt + "/conditional-fields", "fields %s may be omitted by the serializer and have a default on the reading side" % sorted(set(skipped)))
+            via = [c[2].get("rkey") or c[2].get("key") or c[2].get("path", "") for c in g.calls()
+                   if c[2] and (c[2].get("path", "").split("::")[-1] in ("into", "from")) and (c[2].get("trait", "") or "").split("<")[0].split("::")[-1] in ("Into", "From")]
             if n == nf:
                 rep.holds(rule, adt + "/all-fields", "the derived serializer of %s writes all %d fields" % (adt, nf))
+            elif n == 0 and via:
+                # #[serde(into = "...")]: the value is converted and the converted value is serialized; which fields reach the wire is the
+                # conversion's and the other type's business, not decided by counting this impl's field writes
+                rep.inconclusive(rule, adt + "/all-fields", "the serializer of %s goes through a conversion (%s): its own field writes are not what reaches the wire" % (adt, via[0]))
             else:
                 rep.violated(rule, adt + "/all-fields", "the serializer of %s writes %d of its %d fields: a skipped field is lost in a round trip" % (adt, n, nf),
                              witness={"kind": "field-count", "got": n, "spec": nf})
